@@ -359,3 +359,101 @@ Example C04_handover_eviction_witness :
   seen_after cf [EvBefore 1 [97]; EvBefore 2 [98]; EvBefore 3 [99]] 1 = [] /\
   seen_after cf [EvBefore 1 [97]; EvBefore 2 [98]] 1 = [97].
 Proof. exact eviction_witness. Qed.
+
+(** * Round 3: the configuration load / save path (home/clients.go:
+    clientObject.toPersistent, clientsContainer.Init, forConfig;
+    Model/ClientConfig.v, Proofs/ClientConfig.v) *)
+From AGH Require Import Model.ClientConfig Proofs.ClientConfig.
+
+(** Every field of a client loaded from the configuration is the one written
+    in the file object; an absent optional key gives the zero value / the
+    empty own section and never changes another field: the opt-out of the
+    global blocked services is the negation of [use_global_blocked_services]
+    whatever the [blocked_services] key looks like. *)
+Theorem C04_config_flags_as_written : forall known g o c x,
+  to_persistent known g o = COk c x -> as_written g o c x.
+Proof. exact flags_as_written. Qed.
+Print Assumptions C04_config_flags_as_written.
+
+Theorem C04_config_opt_out_kept : forall known g o c x,
+  to_persistent known g o = COk c x ->
+  o_use_global_blocked o = false -> c_own_blocked c = true /\ exists b, c_blocked c = Some b.
+Proof. exact opt_out_kept. Qed.
+Print Assumptions C04_config_opt_out_kept.
+
+(** The conversion refuses exactly a bad identifier or an unknown service. *)
+Theorem C04_config_conversion_total : forall known g o,
+  (exists c x, to_persistent known g o = COk c x) <->
+  (existsb is_bad (o_ids o) = false /\
+   forallb (fun i => existsb (eqb_bytes i) known)
+     (b_ids (match o_blocked o with Some b => b | None => default_blocked end)) = true).
+Proof. exact to_persistent_total. Qed.
+Print Assumptions C04_config_conversion_total.
+
+(** forConfig writes every field of the record (each flag from its own
+    field), and for a loaded client always the blocked-services section. *)
+Theorem C04_config_for_config_total : forall c x,
+  let o := for_config c x in
+  o_name o = c_name c /\ o_uid o = c_uid c /\ o_tags o = c_tags c /\ o_upstreams o = c_upstreams c /\
+  o_ss o = x_ss x /\ o_blocked o = c_blocked c /\
+  o_cache_size o = x_cache_size x /\ o_cache_enabled o = x_cache_enabled x /\
+  o_use_global_settings o = negb (c_own_settings c) /\ o_filtering o = c_filtering c /\
+  o_parental o = c_parental c /\ o_safebrowsing o = c_safebrowsing c /\
+  o_use_global_blocked o = negb (c_own_blocked c) /\
+  o_ignore_qlog o = c_ignore_qlog c /\ o_ignore_stats o = c_ignore_stats c /\
+  o_ids o = ids_of c.
+Proof. exact for_config_fields. Qed.
+Print Assumptions C04_config_for_config_total.
+
+Theorem C04_config_section_always_written : forall known g o c x,
+  to_persistent known g o = COk c x -> exists b, o_blocked (for_config c x) = Some b.
+Proof. exact for_config_section. Qed.
+Print Assumptions C04_config_section_always_written.
+
+(** Round trip, object level, every field: what forConfig writes for a
+    loaded client (with a uid, without an 8-byte MAC) converts back to exactly
+    that client, for every generated uid; and list level: converting the
+    written section reproduces the list of clients. *)
+Theorem C04_config_roundtrip_object : forall known g g' o c x,
+  to_persistent known g o = COk c x -> c_uid c <> 0 -> no_mac8 c ->
+  to_persistent known g' (for_config c x) = COk c x.
+Proof. exact object_roundtrip. Qed.
+Print Assumptions C04_config_roundtrip_object.
+
+Theorem C04_config_roundtrip_partial : forall known g pcs i,
+  loadable_back known pcs ->
+  conv_all known i (map (fun o => (g, o)) (written pcs)) = inr pcs.
+Proof. exact (fun known g pcs i => conv_all_written known g pcs i). Qed.
+Print Assumptions C04_config_roundtrip_partial.
+
+(** Registries with the same records give every request the same effective
+    settings (so the registry-level round trip carries over to requests). *)
+Theorem C04_config_same_records_same_settings : forall ix1 ix2 dhcp id a g,
+  Inv ix1 -> Inv ix2 -> (forall u, deref ix1 u = deref ix2 u) ->
+  apply_client_filtering ix1 dhcp id a g = apply_client_filtering ix2 dhcp id a g.
+Proof. exact same_records_same_settings. Qed.
+Print Assumptions C04_config_same_records_same_settings.
+
+(** The premise "no 8-byte MAC" is needed by the code AS IT IS: such a MAC is
+    written as eight colon groups, which the next start-up reads as an IPv6
+    address (finding C04-config-mac8-reloaded-as-ipv6). *)
+Theorem C04_config_roundtrip_refuted_mac8 :
+  exists r r',
+    load ex_conf_cfg [] [(0, ex_obj)] = LOk r /\ reload ex_conf_cfg [] 0 r = LOk r' /\
+    (exists c, deref (fst r) 7 = Some c /\ c_macs c = [ex_mac8] /\ c_ips c = []) /\
+    (exists c', deref (fst r') 7 = Some c' /\ c_macs c' = [] /\
+                c_ips c' = [([0;2;0;0;0;94;0;16;0;0;0;0;0;0;0;1], [])]).
+Proof. exact roundtrip_refuted_mac8. Qed.
+Print Assumptions C04_config_roundtrip_refuted_mac8.
+
+(** Premises satisfiable: a client with an absent section and the opt-out,
+    identifiers of every kind, loaded, written, read back, written again. *)
+Example C04_config_premises_satisfiable :
+  exists c x r r',
+    to_persistent [] 5 ex_obj6 = COk c x /\ c_uid c = 5 /\ c_uid c <> 0 /\ no_mac8 c /\
+    c_own_blocked c = true /\ c_blocked c = Some default_blocked /\
+    c_ignore_qlog c = false /\ c_ignore_stats c = true /\
+    to_persistent [] 0 (for_config c x) = COk c x /\
+    load ex_conf_cfg [] [(5, ex_obj6)] = LOk r /\ reload ex_conf_cfg [] 0 r = LOk r' /\
+    save r' = save r /\ save r = [for_config c x].
+Proof. exact example_roundtrip. Qed.
